@@ -1116,10 +1116,14 @@ def case_key(case):
                                      case["idx"], case["class"])
 
 
+CASES = []       # set by the check before the workers are forked (inherited, not pickled)
+
+
 def run_slice(args):
-    """worker entry (forked process): runs cases[i] for i in indices; returns (index, rep, records) list"""
+    """worker entry (forked process): runs CASES[i] for (i, rep) in jobs; returns (index, rep, records, error) list"""
     import random
-    cases, jobs, seed, deadline, srt = args
+    jobs, seed, deadline, srt = args
+    cases = CASES
     setup()
     out = []
     hands = {}
